@@ -284,13 +284,14 @@ def sem : Nat → Ctx → Task → Env → Res
       | none => none
       | some (_, e1) => some (.norm, { e with status := e1.status, vars := (x, stripNl e1.out) :: e.vars })
     | .echoSub w1 p w2 =>
-      -- a command substitution in an argument: its status is lost, `echo` returns 0
+      -- a command substitution in an argument: `$?` expanded after it (same command) is its
+      -- status; afterwards the status is lost, `echo` returns 0
       match sub k p (subEnv e []) with
       | none => none
       | some (_, e1) =>
         some (.norm, { e with status := 0,
                               out := e.out ++ (expandWord e.vars e.status w1 ++ (stripNl e1.out ++
-                                (expandWord e.vars e.status w2 ++ [10]))) })
+                                (expandWord e.vars e1.status w2 ++ [10]))) })
     | .exit none => some (.exit, if k.inTrap || k.inExit then { e with status := k.trapSt } else e)
     | .exit (some m) => some (.exit, { e with status := status256 m })
     | .ret m =>
